@@ -28,7 +28,7 @@ class C01(Monitor):
             if not s.ok:
                 self.failed_calls += 1
                 x = s.exc
-                if x['where'] and x['where'].endswith('process_input'):
+                if x['proto'] and x['where'] and (x['where'].endswith('process_input') or x['where'].startswith('stream.')):
                     sid = (s.args or {}).get('sid')
                     self.fsm_refused[s.ep].add(sid if (x['where'].startswith('stream') and sid is not None) else 'conn')
                 if self.epilogue is not None and not self.epilogue_done and self.ep_call_failed is None:
